@@ -60,6 +60,14 @@ def run_property(prop, repo_root, tier, seed, only=None, quiet=False, write=True
             if counts.get(oid, 0) < floor and not any(e for e in errors):
                 errors.append({"rule": "floor", "error": "obligation %s matched %d constructs, floor is %d"
                                % (oid, counts.get(oid, 0), floor)})
+    selftest_problems = []
+    if tier == "thorough" and repo is not None:
+        from . import thorough
+        try:
+            ex, selftest_problems = thorough.extras(prop, repo_root, seed)
+            extra.update(ex)
+        except AnalysisError as err:
+            errors.append({"rule": "thorough", "error": str(err)})
     known = report.load_known()
     new_viol = []
     known_hits = []
@@ -94,6 +102,12 @@ def run_property(prop, repo_root, tier, seed, only=None, quiet=False, write=True
                 print(e["traceback"], file=sys.stderr)
         if code == 0:
             code = 2
+    for p_ in selftest_problems:
+        print("SELFTEST-PROBLEM property=%s %s" % (prop, p_), file=out)
+    if tier == "thorough" and "selftest" in extra and not quiet:
+        st = extra["selftest"]
+        print("%s: self-validation: %d/%d breaking edits reported, %d/%d benign edits silent, %d skipped"
+              % (prop, st.get("breaking_fired", 0), st.get("breaking_total", 0), st.get("benign_silent", 0), st.get("benign_total", 0), st.get("skipped", 0)), file=out)
     if not quiet:
         ok = len([o for o in obs if o.ok])
         print("%s: %d obligations evaluated, %d discharged, %d known findings, %d violations, %d analysis errors (%.2fs, tier=%s)"
@@ -118,10 +132,6 @@ def main(argv=None):
     try:
         code, obs, errors = run_property(args.property, args.repo, args.tier, seed, only=only,
                                          write=not args.no_write and not args.replay)
-        if args.tier == "thorough" and not args.replay:
-            from . import thorough
-            code2 = thorough.run(args.property, args.repo, seed)
-            code = max(code, code2) if code != 1 else 1
     except Exception as err:
         print("ANALYSIS-ERROR property=%s internal: %s: %s" % (args.property, type(err).__name__, err))
         traceback.print_exc()
